@@ -77,6 +77,12 @@ Step(e) ==
     [] e.a = "AdvPlain"      -> AdvPlain(e.src, e.dst, e.cid, e.mt)
     [] e.a = "ForgeDestroy"  -> ForgeDestroy(e.src, e.dst, e.cid, e.signer)
     [] e.a = "MangleAnswer"  -> \E d \in net : d.id = e.id /\ MangleAnswer(d, e.how, e.cid)
+    [] e.a = "Vanish"        -> Vanish(e.n)
+    [] e.a = "NodeRemoveRelay" -> NodeRemoveRelay(e.n, e.cid)
+    [] e.a = "NodeRemoveExit"  -> NodeRemoveExit(e.n, e.cid)
+    [] e.a = "ExpectQuiet"   -> Quiet /\ (\A n \in Node : e.post.transports_open[n] = 0)
+                                /\ UNCHANGED <<circ, relay, exit, retryC, createdC, createC, pingC, pend, net, ctr, now,
+                                               sweepAt, pingAt, hist, budget>>
     [] e.a = "Noop"          -> UNCHANGED <<circ, relay, exit, retryC, createdC, createC, pingC, pend, net, ctr, now,
                                              sweepAt, pingAt, hist, budget>>
     [] OTHER                 -> FALSE
@@ -86,6 +92,7 @@ TraceInit == Init /\ tid \in 1..Len(Traces) /\ l = 1
 TraceNext ==
   /\ l <= Len(Ev)
   /\ Step(Ev[l])
+  /\ (Ev[l].a # "Vanish" => gone' = gone)
   /\ Tail2
   /\ ("nocheck" \in DOMAIN Ev[l]) \/ PostOK(Ev[l].post)
   /\ l' = l + 1 /\ UNCHANGED tid
